@@ -82,6 +82,8 @@ def history(dc, sc, res, rng, label):
             return 'v%d;' % n[0] * 40
         if r < 0.5:
             return rng.randrange(3)
+        if r < 0.62:
+            return None
         return ('t', n[0])
 
     def fail(what, **kw):
@@ -154,8 +156,13 @@ def history(dc, sc, res, rng, label):
                 got = outcome(lambda: (list(I.items()), len(I.items()), list(reversed(I))))
                 exp = outcome(lambda: (list(R.items()), len(R.items()), list(reversed(R))))
             elif op == 'eq':
-                kind = gen.pick(rng, ['od_same', 'od_reordered', 'dict_reordered', 'od_changed', 'dict_changed', 'shorter'])
+                kind = gen.pick(rng, ['od_same', 'od_reordered', 'dict_reordered', 'od_changed', 'dict_changed', 'shorter',
+                                      'dict_other_key', 'od_other_key', 'dict_other_key', 'dict_same'])
                 items = list(R.items())
+                if kind.endswith('other_key') and items:
+                    # same length, one key replaced by a key the Index does not hold (value kept, or None)
+                    j = rng.randrange(len(items))
+                    items[j] = ('no-such-key-%d' % step, items[j][1] if rng.random() < 0.5 else None)
                 if kind in ('od_reordered', 'dict_reordered'):
                     items = items[1:] + items[:1]
                 if kind in ('od_changed', 'dict_changed') and items:
